@@ -5,7 +5,7 @@ from connlib import SEP
 import C08
 
 ID = "C07"
-GEN_FILES = ["Tags.v", "ControlTable.v", "FramingConsts.v", "Limits.v"]
+GEN_FILES = ["Tags.v", "ControlTable.v", "FramingConsts.v", "Limits.v", "LockScope.v"]
 RULE = ("scripts of 1..8 send-side operations (send, send to name, link, unlink, monitor, demonitor) with pids and references incl. "
         "node-local form, names incl. non-ASCII, payloads from the C01 term generator, unlink ids over the 64-bit range (0, 2^31, 2^63-1, "
         "2^63, 2^64-1, random), operations that must fail (atom longer than the format allows, more than 255 atoms in header mode) placed "
@@ -14,7 +14,8 @@ RULE = ("scripts of 1..8 send-side operations (send, send to name, link, unlink,
         "byte until the client closes. distinct = distinct script; non-trivial = at least two operations")
 ASSUMPTIONS = ["the independent reader of the written bytes is props/etf.py (erl_ext_dist) with the protocol's control tuples from the distribution protocol document",
                "in header mode the atom order of the writer's HashSet is read back from the bytes before the model re-encodes (as in C14)",
-               "concurrent senders through one node are decided with the node-level properties (C17-C19 harness); this check drives one connection"]
+               "concurrent senders: the statement for every schedule is the lock theorem (Conc/Interleave.v) plus the translator's check that each "
+               "operation holds the connection lock from before its first write to after its last; the scheduler's own interleavings are sampled"]
 
 FLAGSETS = [("default", connlib.LIB_DEFAULT, connlib.OTP26), ("hdr", connlib.LIB_DEFAULT | 0x2000, connlib.OTP26),
             ("hdr-not-granted", connlib.LIB_DEFAULT | 0x2000, connlib.OTP26 & ~0x2000), ("hdr-not-requested", connlib.LIB_DEFAULT, connlib.OTP26),
@@ -187,6 +188,50 @@ def run(ctx):
         return out
     impl, _ = ctx.diff_domain("conn", cases, oracle=oracle, nontrivial=lambda c, i: c if len(EXPECT[c][2]) >= 2 else None,
                               classify=classify, compare=compare)
+    # concurrent senders through one node: frames of different tasks never interleave, each task's frames arrive in
+    # the order it issued them (the theorem for every schedule is Conc/Interleave.v; this samples the scheduler's)
+    bursts = [SEP.join(["node 1", "spawn", "burst %d %d %d" % (k, n, size), "wrote"])
+              for k, n, size in ([(2, 3, 10), (4, 5, 300000), (8, 4, 100000)] + [(rng.randrange(2, 9), rng.randrange(1, 6), rng.choice([1, 5000, 200000]))
+                                                                               for _ in range(ctx.budget(3, 40))])]
+
+    def burst_oracle(case, impl):
+        if impl.startswith(("PANIC", "CRASH", "TIMEOUT", "start-err", "connect-err", "peer-handshake")):
+            return ("violation", "the node did not survive concurrent senders: " + impl[:60])
+        k, n, size = (int(x) for x in case.split(SEP)[2].split()[1:])
+        outs = impl.split(SEP)
+        if outs[1] != "sent %d" % (k * n):
+            return ("violation", "%s of %d concurrent sends succeeded" % (outs[1], k * n))
+        frames = connlib.split_frames(bytes.fromhex(outs[2].replace(".", "")))
+        if frames is None:
+            return ("violation", "the byte stream written by concurrent senders does not consist of whole frames")
+        if len(frames) != k * n:
+            return ("violation", "%d sends, %d frames" % (k * n, len(frames)))
+        nxt = [0] * k
+        for f in frames:
+            try:
+                r = etf.Reader(f)
+                if r.u(1) != 112 or r.u(1) != 131:
+                    raise etf.EtfError("marker")
+                r.refs = []
+                ctl = etf.spec_read_term(r)
+                if r.u(1) != 131:
+                    raise etf.EtfError("version")
+                msg = etf.spec_read_term(r)
+                if r.i != len(f):
+                    raise etf.EtfError("trailing")
+            except (etf.EtfError, UnicodeDecodeError, ValueError, IndexError) as e:
+                return ("violation", "a frame written under concurrency is not readable: %s" % e)
+            if ctl[0] != "tuple" or ctl[1][0] != ("int", 2) or msg[0] != "tuple":
+                return ("violation", "a frame written under concurrency is not a SEND with its payload")
+            task, seq, blob = msg[1][0][1], msg[1][1][1], msg[1][2]
+            if seq != nxt[task]:
+                return ("violation", "task %d's messages reach the peer out of order (%d before %d)" % (task, seq, nxt[task]))
+            if blob != ("bits", bytes([(task * 16 + seq) % 256]) * size, 8 * size):
+                return ("violation", "the payload of task %d message %d is damaged" % (task, seq))
+            nxt[task] += 1
+        return None
+    ctx.diff_domain("node", bursts, oracle=burst_oracle, nontrivial=lambda c, i: c, classify=lambda c, i: ["burst:" + c.split(SEP)[2]],
+                    compare=lambda c, a, b: a.rsplit(SEP, 1)[0] == b.rsplit(SEP, 1)[0])
     # header mode: the model must reproduce the written bytes for the atom order they carry
     chk = []
     for c, a in zip(cases, impl):
